@@ -763,7 +763,7 @@ func main() {
 	n := flag.Int("n", 300, "number of generated cases")
 	out := flag.String("out", "", "output file")
 	replay := flag.String("replay", "", "file of lines carrying case=x… to re-run")
-	stage := flag.String("stage", "hist", "hist | conc | bindonce | policy | order | migrate | server")
+	stage := flag.String("stage", "hist", "hist | conc | bindonce | policy | order | migrate | server | admin")
 	flag.Parse()
 	o, err := c.NewOut(*out)
 	if err != nil {
@@ -894,6 +894,15 @@ func main() {
 			if err != nil {
 				continue
 			}
+			if strings.HasPrefix(l, "coll ") {
+				var ak AdminCase
+				if json.Unmarshal(js, &ak) == nil {
+					if line, impl := w.runAdmin(&ak); line != "" {
+						o.Case(line, impl)
+					}
+				}
+				continue
+			}
 			if strings.HasPrefix(l, "prov ") {
 				var pk ProvCase
 				if json.Unmarshal(js, &pk) == nil {
@@ -966,6 +975,28 @@ func main() {
 		}
 		for ; i < *n; i++ {
 			emit(ev(genHist(r.Fork()), i))
+		}
+	case "admin":
+		emitAdm := func(k *AdminCase) {
+			var line, impl string
+			func() {
+				defer func() {
+					if r := recover(); r != nil {
+						js, _ := json.Marshal(k)
+						line, impl = "coll v=2 crashed case=x"+hex.EncodeToString(js), "crash"
+					}
+				}()
+				line, impl = w.runAdmin(k)
+			}()
+			if line != "" {
+				o.Case(line, impl)
+			}
+		}
+		for _, k := range adminCorners() {
+			emitAdm(k)
+		}
+		for i := 0; i < *n; i++ {
+			emitAdm(genAdmin(r.Fork()))
 		}
 	case "conc":
 		for _, s := range interleavings(4, 4) {
